@@ -24,7 +24,8 @@ def parse(log):
 
 logs = [parse(l) for l in ("/verif/seeded/_logs/eval.log", "/verif/seeded/_logs/eval_frozen.log",
                             "/verif/seeded/_logs/eval_live.log", "/verif/seeded/_logs/eval_final.log",
-                            "/verif/seeded/_logs/eval_extra.log")]
+                            "/verif/seeded/_logs/eval_extra.log", "/verif/seeded/_logs/eval_r3.log",
+                            "/verif/seeded/_logs/eval_extra2.log")]
 first, final = {}, {}
 for lg in logs:
     for k, v in lg.items():
